@@ -534,6 +534,35 @@ where
         }
     };
 
+    // Modify the target FD. If this fails, the target FD is left untouched, so
+    // the saved copy is no longer needed and must not be left open.
+    match overwrite_fd(env, redir, xtrace, target_fd).await {
+        Ok(exit_status) => {
+            let original = target_fd;
+            Ok((SavedFd { original, save }, exit_status))
+        }
+        Err(error) => {
+            if let Some(save) = save {
+                let _: Result<(), Errno> = env.system.close(save);
+            }
+            Err(error)
+        }
+    }
+}
+
+/// Opens the file for the redirection and moves it to the target FD.
+///
+/// This is a helper for [`perform`]. If this function fails, the target FD
+/// remains unchanged.
+async fn overwrite_fd<S>(
+    env: &mut Env<S>,
+    redir: &Redir,
+    xtrace: Option<&mut XTrace>,
+    target_fd: Fd,
+) -> Result<Option<ExitStatus>, Error>
+where
+    S: Runtime + 'static,
+{
     // Prepare an FD from the redirection body
     let (fd_spec, location, exit_status) = match &redir.body {
         RedirBody::Normal { operator, operand } => {
@@ -574,8 +603,7 @@ where
         let _: Result<(), Errno> = env.system.close(target_fd);
     }
 
-    let original = target_fd;
-    Ok((SavedFd { original, save }, exit_status))
+    Ok(exit_status)
 }
 
 /// `Env` wrapper for performing redirections.
@@ -1612,6 +1640,33 @@ mod tests {
             .unwrap()
             .unwrap();
         assert_eq!(read_count, 0);
+    }
+
+    #[test]
+    fn failed_redirection_leaves_no_saved_fd_open() {
+        let (mut env, state) = env_with_nofile_limit();
+        let fds_before: Vec<Fd> = {
+            let state = state.borrow();
+            state.processes[&env.main_pid].fds().keys().copied().collect()
+        };
+
+        let mut env = RedirGuard::new(&mut env);
+        // FD 0 is open, so it is saved before the redirection fails.
+        let redir = "< /no/such/file".parse().unwrap();
+        env.perform_redir(&redir, None)
+            .now_or_never()
+            .unwrap()
+            .unwrap_err();
+        let redir = "<& 7".parse().unwrap();
+        env.perform_redir(&redir, None)
+            .now_or_never()
+            .unwrap()
+            .unwrap_err();
+        drop(env);
+
+        let state = state.borrow();
+        let fds_after: Vec<Fd> = state.processes.values().next().unwrap().fds().keys().copied().collect();
+        assert_eq!(fds_after, fds_before);
     }
 
     #[test]
